@@ -2,7 +2,7 @@
 C10 — property theorems: bounds lemmas on the index-arithmetic models of `Model/C10.lean`
 (helper lemmas live in `Proofs/C10*.lean`).
 -/
-import Mahotas.Proofs.C10Regions
+import Mahotas.Proofs.C10Odometer
 open Mahotas Mahotas.C10
 
 /-! ## general index arithmetic -/
@@ -139,6 +139,23 @@ theorem C10_filter_table_row_in_bounds (ashape fshape : List Nat) (p : List Int)
   unfold tableRow
   omega
 
+/-- **B1, `iterate_both` keeps the row pointer in step with the array iterator.** Starting at the first
+element with the pointer at row 0 and applying `iterate_both` `n` times (its transliterated pointer
+arithmetic: `+= strides[d]` when the coordinate leaves/enters a border region, `-= backstrides[d]` on
+a carry) while the array iterator advances in C scan order: the array position is inside the array,
+and the pointer is at row `tableRow p` — the row of the per-axis region indices of `p` — which is
+inside the table (`< offsets_size`). For every rank, every array shape (axes ≥ 1) and every filter
+shape (axes ≥ 1; smaller, equal, larger). -/
+theorem C10_filter_iterate_both_row (ashape fshape : List Nat) (hpos : ∀ d ∈ ashape, 0 < d)
+    (hf : ∀ f ∈ fshape, 0 < f) (hlen : fshape.length = ashape.length) (n : Nat) (p : List Int)
+    (row : Int) (h : scanState ashape fshape n = some (p, row)) :
+    inside ashape p = true ∧ row = (tableRow ashape fshape p : Int) ∧
+    0 ≤ row ∧ row < (shapeSize (minShape ashape fshape) : Int) := by
+  obtain ⟨h1, h2⟩ := scanState_spec ashape fshape hpos hf hlen n p row h
+  have h3 := ravelI_lt _ _ (regionIdxPos_inside ashape fshape p hf hlen h1)
+  refine ⟨h1, h2, by omega, ?_⟩
+  rw [h2]; unfold tableRow; omega
+
 /-! non-vacuity (B1): a 1-D array of 3 elements, a filter of 5 (larger than the array), `reflect`:
     15 reads, none flagged, all in range; with `constant` the out-of-array ones are the flag. -/
 example : filterIdx .reflect [3] [5] = [1, 0, 0, 1, 2, 0, 0, 1, 2, 2, 0, 1, 2, 2, 1] := by decide
@@ -147,7 +164,7 @@ example : filterIdx .constant [2, 2] [1, 3] =
 example : tableOffset .nearest [2, 3] [1, 2] [3, 3] [0, 2] [2, 2] = some 1 := by decide
 example : (List.range 7).map (fun p => regionPos 7 3 (regionIndex 7 3 p)) = [0, 1, 1, 1, 1, 1, 6] ∧
     repPos [7, 3] [3, 5] [4, 1] = [1, 1] ∧ tableRow [7, 3] [3, 5] [6, 2] = 8 ∧
-    shapeSize (minShape [7, 3] [3, 5]) = 9 := by decide
+    shapeSize (minShape [7, 3] [3, 5]) = 9 ∧ scanState [7, 3] [3, 5] 20 = some ([6, 2], 8) := by decide
 
 /-! ## B2 — `fast_binary_dilate_erode_2d` -/
 
